@@ -97,6 +97,30 @@ def validate_trace(ctx, module, events, constants=None, invariants=(), timeout=9
     {verdict:[{i,clause}], drift:[..], n}.  One TLC step per event; all machine invariants listed are
     evaluated at every step."""
     if not _demo and events:
+        # a recorded result with None inside cannot be a value of any documented result type (and TLC cannot read
+        # JSON null): such an event is a violation in itself; it is replaced by a neutral copy of a well-typed
+        # neighbour so that event numbering stays aligned for the caller
+        def has_none(v):
+            if v is None:
+                return True
+            if isinstance(v, dict):
+                return any(has_none(x) for x in v.values())
+            if isinstance(v, (list, tuple)):
+                return any(has_none(x) for x in v)
+            return False
+        if any(has_none(e) for e in events):
+            good = next((e for e in events if not has_none(e)), None)
+            fixed = []
+            for e in events:
+                if has_none(e):
+                    ctx.violation({"kind": "trace-event", "event": e}, "WellTypedResult", "a value of the documented result type", "None inside the recorded result")
+                    if good is not None:
+                        fixed.append(good)
+                else:
+                    fixed.append(e)
+            if good is None:
+                return {"verdict": [], "drift": [], "n": len(events)}
+            events = fixed
         demonstrate_binding(ctx, module, events, constants, invariants, timeout, heap)
     fd, path = tempfile.mkstemp(prefix="verif-trace-", suffix=".json")
     try:
